@@ -39,6 +39,164 @@ theorem createSemTok_delta (t : Token) (prev : Pos) (text : List Char) (ty m : N
           · intro hz; simp at hz; omega
           · intro _; simp [hb]
 
+/-- what an LSP client does with the relative encoding: absolute start positions, in order -/
+def decode (prev : Pos) : List SemTok → List Pos
+  | [] => []
+  | st :: r =>
+    let p : Pos := if st.deltaLine = 0 then ⟨prev.line, prev.col + st.deltaStart⟩
+                   else ⟨prev.line + st.deltaLine, st.deltaStart⟩
+    p :: decode p r
+
+/-- the tokens a classifier selects (index-aware, as in `collectToks`) -/
+def classified (classify : Nat → Token → Option (Nat × Nat)) : List Token → Nat → List Token
+  | [], _ => []
+  | t :: rest, i =>
+    match classify i t with
+    | none => classified classify rest (i + 1)
+    | some _ => t :: classified classify rest (i + 1)
+
+theorem getLastD_cons {α} (a : α) (l : List α) (x y : α) :
+    (a :: l).getLast?.getD x = (a :: l).getLast?.getD y := by
+  rw [List.getLast?_eq_some_getLast (List.cons_ne_nil a l)]; rfl
+
+def lastPos (prev : Pos) (ps : List Pos) : Pos := ps.getLast?.getD prev
+
+theorem decode_one (t : Token) (prev : Pos) (text : List Char) (ty m : Nat) (st : SemTok)
+    (h : createSemTok t prev text ty m = .ok st) :
+    (if st.deltaLine = 0 then (⟨prev.line, prev.col + st.deltaStart⟩ : Pos)
+     else ⟨prev.line + st.deltaLine, st.deltaStart⟩) = asPosition t.range.lo text := by
+  obtain ⟨h1, h2, h3, _, _⟩ := createSemTok_delta t prev text ty m st h
+  generalize asPosition t.range.lo text = P at *
+  obtain ⟨L, C⟩ := P
+  by_cases hz : st.deltaLine = 0
+  · simp only [hz, if_true]
+    have := h2 hz
+    simp only [hz, Nat.add_zero] at h1
+    simp_all
+  · simp only [hz, if_false]
+    have := h3 hz
+    simp_all
+
+theorem collectToks_decode (text : List Char) (classify : Nat → Token → Option (Nat × Nat)) :
+    ∀ (toks : List Token) (i : Nat) (prev : Pos) (sts : List SemTok) (p : Pos),
+      collectToks text classify toks i prev = .ok (sts, p) →
+      decode prev sts = (classified classify toks i).map (fun t => asPosition t.range.lo text) ∧
+      p = lastPos prev (decode prev sts)
+  | [], i, prev, sts, p, h => by
+    simp only [collectToks] at h
+    cases h
+    simp [decode, classified, lastPos]
+  | t :: rest, i, prev, sts, p, h => by
+    simp only [collectToks] at h
+    cases hc : classify i t with
+    | none =>
+      simp only [hc] at h
+      have ih := collectToks_decode text classify rest (i + 1) prev sts p h
+      simp only [classified, hc]
+      exact ih
+    | some tm =>
+      obtain ⟨ty, m⟩ := tm
+      simp only [hc] at h
+      cases hs : createSemTok t prev text ty m with
+      | error e => simp [hs] at h
+      | ok st =>
+        simp only [hs] at h
+        cases hr : collectToks text classify rest (i + 1) (asPosition t.range.lo text) with
+        | error e => simp [hr] at h
+        | ok r =>
+          obtain ⟨sts', p'⟩ := r
+          simp only [hr] at h
+          cases h
+          have ih := collectToks_decode text classify rest (i + 1) _ sts' p hr
+          have h1 := decode_one t prev text ty m st hs
+          simp only [decode, classified, hc, List.map_cons, h1]
+          refine ⟨by rw [ih.1], ?_⟩
+          rw [ih.2]
+          simp only [lastPos]
+          cases hd : decode (asPosition t.range.lo text) sts' with
+          | nil => simp
+          | cons a l => simp only [List.getLast?_cons_cons]; exact getLastD_cons ..
+
+theorem decode_append (prev : Pos) (a b : List SemTok) :
+    decode prev (a ++ b) = decode prev a ++ decode (lastPos prev (decode prev a)) b := by
+  induction a generalizing prev with
+  | nil => simp [decode, lastPos]
+  | cons st r ih =>
+    simp only [List.cons_append, decode]
+    rw [ih]
+    simp only [lastPos]
+    congr 2
+    cases hd : decode _ r with
+    | nil => simp
+    | cons x l => rw [getLastD_cons x l _ prev, List.getLast?_cons_cons]
+
+
+/-- the classified tokens of all declarations from `ds` on, in document order -/
+def classifiedAll (d : AnalyzedSource) : List (Ref GlobalDecl) → List Token
+  | [] => []
+  | gd :: rest =>
+    match declTokens d gd with
+    | none => []
+    | some sl => classified (semClassify d gd.val sl) sl 0 ++ classifiedAll d rest
+
+theorem go_decode (d : AnalyzedSource) : ∀ (ds : List (Ref GlobalDecl)) (prev : Pos) (sts : List SemTok),
+    semanticTokensGo d ds prev = .ok sts →
+    decode prev sts = (classifiedAll d ds).map (fun t => asPosition t.range.lo d.text)
+  | [], prev, sts, h => by
+    simp only [semanticTokensGo, Except.ok.injEq] at h
+    subst h
+    rfl
+  | gd :: rest, prev, sts, h => by
+    simp only [semanticTokensGo] at h
+    cases hd : declTokens d gd with
+    | none => simp [hd] at h
+    | some sl =>
+      simp only [hd] at h
+      cases hc : collectToks d.text (semClassify d gd.val sl) sl 0 prev with
+      | error e => simp [hc] at h
+      | ok r =>
+        obtain ⟨s1, p1⟩ := r
+        simp only [hc] at h
+        cases hr : semanticTokensGo d rest p1 with
+        | error e => simp [hr] at h
+        | ok more =>
+          simp only [hr, Except.ok.injEq] at h
+          subst h
+          obtain ⟨e1, e2⟩ := collectToks_decode d.text _ sl 0 prev s1 p1 hc
+          have ih := go_decode d rest p1 more hr
+          rw [decode_append, ← e2, ih, e1]
+          simp [classifiedAll, hd]
+
+/-- **Decoding the relative encoding gives back the tokens' positions.**  Whenever the handler
+    answers, a client that decodes the `(deltaLine, deltaStart)` stream from `(0, 0)` — the LSP
+    rule — obtains exactly the start positions (`as_position` of the token start) of the
+    classified tokens, declaration by declaration in document order: nothing is shifted, dropped or
+    duplicated, for every document. -/
+theorem semantic_tokens_decode (d : AnalyzedSource) (sts : List SemTok) (h : semanticTokens d = .ok sts) :
+    decode ⟨0, 0⟩ sts = (classifiedAll d d.ast.decls).map (fun t => asPosition t.range.lo d.text) :=
+  go_decode d d.ast.decls ⟨0, 0⟩ sts h
+
+/-- one produced semantic token per classified token -/
+theorem semantic_tokens_count (d : AnalyzedSource) (sts : List SemTok) (h : semanticTokens d = .ok sts) :
+    sts.length = (classifiedAll d d.ast.decls).length := by
+  have := congrArg List.length (semantic_tokens_decode d sts h)
+  have hl : ∀ (p : Pos) (l : List SemTok), (decode p l).length = l.length := by
+    intro p l
+    induction l generalizing p with
+    | nil => rfl
+    | cons a l ih => simp [decode, ih]
+  simpa [hl] using this
+
+/-- Non-vacuity: two identifiers on two lines are encoded as `(0,0)` and `(+1 line, column 0)`, and
+    decoding gives the two positions back. -/
+example :
+    (match collectToks "ab\ncd".toList (fun _ _ => some (tyVariable, 0))
+        [⟨.Ident "ab".toList, ⟨0, 2⟩, []⟩, ⟨.Ident "cd".toList, ⟨3, 5⟩, []⟩] 0 ⟨0, 0⟩ with
+     | .ok (sts, p) => decide (sts = [⟨0, 0, 2, tyVariable, 0⟩, ⟨1, 0, 2, tyVariable, 0⟩] ∧ p = ⟨1, 0⟩ ∧
+         decode ⟨0, 0⟩ sts = [⟨0, 0⟩, ⟨1, 0⟩])
+     | .error _ => false) = true := by
+  decide +kernel
+
 /-- Lexical classes: comments, numbers (decimal, hexadecimal, character literals), keywords;
     symbols and other tokens are not classified. -/
 theorem lexical_classes :
